@@ -36,6 +36,7 @@ func (reg *Reg) BlobDelete(ctx context.Context, r ref.Ref, d descriptor.Descript
 	req := &reghttp.Req{
 		MetaKind:   reqmeta.Query,
 		Host:       r.Registry,
+		NoMirrors:  true,
 		Method:     "DELETE",
 		Repository: r.Repository,
 		Path:       "blobs/" + d.Digest.String(),
